@@ -461,4 +461,82 @@ theorem x21_req_fields (O : Oracles) (w : Wire) (n : Bytes) (hsp : n ∉ special
     vals_dropEmptySpecial _ _ hsp, srvDecode_hdr, vals_del, vals_joinCookies_ne _ _ (Ne.symm hck), vals_ofFields]
   simp [Ne.symm htr, Ne.symm hh]
 
+
+/-! ### HTTP/1.1 → HTTP/2: the request line -/
+/-- the path `clientStream.AppendHeaders` puts into the URL for a converted request: the unescaped original path when the
+path variable still is its normalisation, else the path variable -/
+def x12PathUsed (O : Oracles) (p : Bytes) : Bytes := (O.unescape p).getD (O.fhNorm p)
+
+theorem pathUsed_eq (u : Option Bytes) (f : Bytes) :
+    (if u.isSome = true ∧ ¬ u.getD [] = f then u.getD [] else f) = u.getD f := by
+  cases u with
+  | none => simp
+  | some x => by_cases h : x = f <;> simp [h]
+
+theorem splitTarget_hadQ (t : Bytes) (h : (splitTarget t).2.2 ≠ []) : (splitTarget t).2.1 = true := by
+  unfold splitTarget at *
+  simp only at *
+  generalize List.dropWhile (fun x => decide (x ≠ qmark)) t = r at *
+  cases r <;> simp_all
+
+theorem x12_req_pseudo_eq (O : Oracles) (remote : Bytes) (win : List Nat) (w : Wire)
+    (hm : pseudoGet w.pseudo nMethod ≠ []) (hh : lower ((valuesOf nHost w.fields).headD []) ≠ []) :
+    (x12Req O remote win w).pseudo =
+      [(nAuthority, lower ((valuesOf nHost w.fields).headD [])), (nMethod, pseudoGet w.pseudo nMethod),
+       (nPath, let s := splitTarget (pseudoGet w.pseudo nPath)
+               O.escapedOf (x12PathUsed O s.1) s.1 ++ (if s.2.2 = [] then [] else qmark :: s.2.2)),
+       (nScheme, sHTTP)] := by
+  unfold x12Req cliEncode x12PathUsed
+  simp only [C01H2Map.clientAppendHeaders, vals_ofFields]
+  simp [sHTTP, hm, hh, pathUsed_eq]
+  by_cases hq : (splitTarget (pseudoGet w.pseudo nPath)).2.2 = [] <;> simp [hq] <;> intro h <;> simp_all
+
+/-- **HTTP/1.1 → HTTP/2: method, authority, path and query**: the method token and the (case-folded) Host arrive as
+`:method` / `:authority`; `:path` is the request target byte for byte — path AND query — whenever net/url prints the
+original path (`escapedOf … p = p`) and the query is not the empty one (`/a?`, see the finding). -/
+theorem x12_req_pseudo_roundtrip (O : Oracles) (remote : Bytes) (win : List Nat) (w : Wire)
+    (hm : pseudoGet w.pseudo nMethod ≠ []) (hh : lower ((valuesOf nHost w.fields).headD []) ≠ [])
+    (hesc : O.escapedOf (x12PathUsed O (splitTarget (pseudoGet w.pseudo nPath)).1) (splitTarget (pseudoGet w.pseudo nPath)).1 =
+      (splitTarget (pseudoGet w.pseudo nPath)).1)
+    (hq : (splitTarget (pseudoGet w.pseudo nPath)).2.1 = true → (splitTarget (pseudoGet w.pseudo nPath)).2.2 ≠ []) :
+    let out := x12Req O remote win w
+    pseudoGet out.pseudo nMethod = pseudoGet w.pseudo nMethod ∧
+    pseudoGet out.pseudo nPath = pseudoGet w.pseudo nPath ∧
+    pseudoGet out.pseudo nAuthority = lower ((valuesOf nHost w.fields).headD []) := by
+  intro out
+  have hp : out.pseudo = _ := x12_req_pseudo_eq O remote win w hm hh
+  have hj := splitTarget_join (pseudoGet w.pseudo nPath)
+  refine ⟨?_, ?_, ?_⟩
+  · rw [hp, pseudo4_method]
+  · rw [hp, pseudo4_path]
+    simp only [hesc]
+    by_cases hq2 : (splitTarget (pseudoGet w.pseudo nPath)).2.2 = []
+    · have : (splitTarget (pseudoGet w.pseudo nPath)).2.1 = false := by
+        cases hb : (splitTarget (pseudoGet w.pseudo nPath)).2.1
+        · rfl
+        · exact absurd hq2 (hq hb)
+      rw [this] at hj
+      simpa [hq2] using hj
+    · have : (splitTarget (pseudoGet w.pseudo nPath)).2.1 = true := splitTarget_hadQ _ hq2
+      rw [this] at hj
+      simpa [hq2] using hj
+  · rw [hp, pseudo4_authority]
+
+/-! ### status and content-length of a forwarded response -/
+theorem resp_status (isHead : Bool) (win : List Nat) (w : Wire) :
+    (fwdRespH2 isHead win w).pseudo = [(nStatus, pseudoGet w.pseudo nStatus)] := by
+  have : (cliDecode w).a = pseudoGet w.pseudo nStatus := by unfold cliDecode; split <;> rfl
+  unfold fwdRespH2 srvEncode; simp [this]
+
+/-- the Content-Length the HTTP/2 server stream writes (`MStream.WriteHeader`, regenerated): HEAD / 304 keep the upstream's,
+1xx / 204 have none, a response that may have a body and has none gets 0, otherwise the upstream's (when valid) -/
+theorem resp_content_length_rule (isHead : Bool) (status : Nat) (dataEmpty upValid : Bool) (up : Option Bytes) :
+    C01H2Map.respContentLength isHead status bodyAllowed dataEmpty upValid up =
+      (let kept := if upValid then up.getD [] else []
+       if isHead || status == 304 then kept
+       else if !bodyAllowed status then [] else if dataEmpty then [48] else kept) := by
+  unfold C01H2Map.respContentLength
+  cases isHead <;> cases dataEmpty <;> cases upValid <;> cases hb : bodyAllowed status <;> by_cases h3 : status = 304 <;>
+    cases up <;> simp_all
+
 end MosnVerif.Lemmas.H2Fwd
